@@ -359,9 +359,14 @@ class KernelSim(WorldBase):
             if s.get("ncu"):
                 Metrics.setNumCachedUses(s["ncu"])
             for rank, typ, cons in s["reg"]:
+                both = cons and ((self.prop == "C15" and hash_stable(rank + typ) % 2 == 0) or role == "consume")
+                if both and (hash_stable(typ + rank) + s.get("mask", 0)) % 2 == 0:
+                    Metrics.trace(rank, typ)       # registered as file first, then as consumable
+                    Metrics.trace(rank, typ, consumable=True)
+                    continue
                 Metrics.trace(rank, typ, consumable=bool(cons))
-                if cons and ((self.prop == "C15" and hash_stable(rank + typ) % 2 == 0) or role == "consume"):
-                    Metrics.trace(rank, typ)       # file and consumable at once
+                if both:
+                    Metrics.trace(rank, typ)       # consumable first, then file
             if isect is not None:
                 for typ in isect["types"]:
                     Metrics.trace(s["rank"], typ, consumable=True)
@@ -515,8 +520,7 @@ class KernelSim(WorldBase):
         for rank, typ, cons in s["reg"]:
             text = out["files"].get(f"{pre}{rank}-{typ}.csv")
             if text is None:
-                if s["role"] == "sweep":
-                    report("C16.header", f"no trace file for registered trace {rank}-{typ}")
+                report("C16.header", f"no trace file for registered trace {rank}-{typ}")
                 continue
             header, rows = TR.parse(text)
             TR.judge_trace(rank, typ, header, rows, expect, order, report)
@@ -543,6 +547,10 @@ class KernelSim(WorldBase):
             for (rank, typ), rows in batches.items():
                 text = out["files"].get(f"{pre}{rank}-{typ}.csv")
                 if text is None:
+                    if rows:
+                        self.V("C16", "C16.consumable-same-rows", "session",
+                               f"in-memory trace {rank}-{typ} delivered {len(rows)} rows but the file trace registered "
+                               f"for the same rank and type was never written")
                     continue
                 ncmp += 1
                 mem = "".join(",".join(str(v) for v in row) + "\n" for row in rows)
